@@ -92,9 +92,9 @@ func c06RandText(r *Rng, maxLen int) string {
 }
 
 type c06Frag struct {
-	kind string
-	src  string
-	want string // expected rendering when known independently ("" + known=false otherwise)
+	kind  string
+	src   string
+	want  string // expected rendering when known independently ("" + known=false otherwise)
 	known bool
 }
 
@@ -316,7 +316,7 @@ func init() {
 			"random: byte strings up to 200 bytes (4 KB repeats) without openers, and sequences of 1-8 fragments [text|verbatim|{# #}|comment tag|templatetag|variable|tag block] " +
 			"whose rendering must equal the concatenation of the fragments' own renderings / known expected texts, with a counting context function inside every comment. " +
 			"distinct_nontrivial = distinct non-empty opener-free strings rendered plus distinct fragment sequences.",
-		MinNontriv: 1000,
+		MinNontriv:  1000,
 		Assumptions: []string{"whitespace-control markers and TrimBlocks are excluded here (C15)", "comment-tag bodies are lexable token sequences (the lexer runs before the comment tag can skip them)"},
 	})
 }
